@@ -13,6 +13,7 @@ import os
 import gffutils
 import argparse
 import tempfile
+import uuid
 from traceback import print_exc
 import gzip
 
@@ -150,9 +151,19 @@ def gtf2db(gtf, db, complete_db=False, check_gtf=True):
         check_input_gtf(gtf, db, complete_db)
 
     logger.info("Converting gene annotation file to .db format (takes a while)...")
-    gffutils.create_db(gtf, db, force=True, keep_order=True, merge_strategy='error',
-                       sort_attribute_values=True, disable_infer_transcripts=complete_db,
-                       disable_infer_genes=complete_db)
+    # The database may already exist and be in use: a run that found it in the per-user cache of converted annotations
+    # (db_config.json) opens this very path in every worker for as long as it runs. create_db(force=True) removes the
+    # file first and fills the new one over seconds to minutes, so such a run would open a half-built database.
+    # Build it under a name of our own and move the complete file into place.
+    tmp_db = "%s.%s.tmp" % (db, uuid.uuid4().hex)
+    try:
+        gffutils.create_db(gtf, tmp_db, force=True, keep_order=True, merge_strategy='error',
+                           sort_attribute_values=True, disable_infer_transcripts=complete_db,
+                           disable_infer_genes=complete_db)
+        os.replace(tmp_db, db)
+    finally:
+        if os.path.exists(tmp_db):
+            os.remove(tmp_db)
     logger.info("Gene database written to " + db)
     logger.info("Provide this database next time to avoid excessive conversion")
 
